@@ -36,6 +36,9 @@ class CrashSeam:
         self.fired = False
         self.fired_at = None
         self.active = False
+        self.by_file = {}
+        self.last_by_file = {}
+        self.target = None
 
     def _want(self, fname: str) -> bool:
         if self.only is not None:
@@ -48,7 +51,12 @@ class CrashSeam:
         if not self._want(code.co_filename):
             return self.mon.DISABLE
         self.count += 1
-        if self.k is not None and self.count == self.k and not self.fired:
+        fn_ = code.co_filename
+        c = self.by_file.get(fn_, 0) + 1
+        self.by_file[fn_] = c
+        if self.fired:
+            return None
+        if (self.k is not None and self.count == self.k) or (self.target is not None and fn_ == self.target[0] and c == self.target[1]):
             self.fired = True
             self.fired_at = (code.co_filename.rsplit("/exo/", 1)[-1], line, code.co_name)
             raise self.exc
@@ -75,12 +83,26 @@ class CrashSeam:
         self.mon.free_tool_id(self.tool)
         self.tool = None
 
-    def run(self, fn, k=None, exc=None):
-        """Run fn() while counting; raise `exc` at event k (1-based) if given.
-        Returns (outcome, n_events) where outcome is ("ret", value) or
-        ("exc", exception)."""
+    def pick_stratified(self, u: float):
+        """Crash point chosen per SOURCE FILE first (uniformly among the exo files the last counted run
+        executed lines of), then uniformly among that file's line events: small modules (range analysis,
+        memory allocators, the equivalence tracker) get the same share as the big rewriting modules.
+        Returns a `target` for run()."""
+        files = sorted(self.last_by_file)
+        if not files:
+            return None
+        f = files[int(u * len(files)) % len(files)]
+        u2 = (u * 7919.0) % 1.0
+        return (f, 1 + int(u2 * self.last_by_file[f]) % max(1, self.last_by_file[f]))
+
+    def run(self, fn, k=None, exc=None, target=None):
+        """Run fn() while counting; raise `exc` at event k (1-based) if given, or at the j-th line event
+        of one file if target=(file, j).  Returns (outcome, n_events) where outcome is ("ret", value)
+        or ("exc", exception)."""
         self.install()
         self.count = 0
+        self.by_file = {}
+        self.target = target
         self.k = k
         self.exc = exc
         self.fired = False
@@ -96,6 +118,8 @@ class CrashSeam:
         finally:
             self.active = False
             self.mon.set_events(self.tool, 0)
+        if k is None and target is None:
+            self.last_by_file = dict(self.by_file)
         return out, self.count
 
 
